@@ -16,6 +16,7 @@ The theorems are about `NV.NetParse.ipNetwork` / `parseIpNetwork` / `netStr` /
 `cidrAbbrevToVerbose` / `expandPartialAddress` (Model/NetParse.lean), for both back ends.
 -/
 import NetaddrVerif.Lemmas.C03L
+import NetaddrVerif.Lemmas.C03LErr
 namespace NV.C03
 open NV NV.Text4 NV.AddrParse NV.NetParse NV.C01L NV.C03L
 
@@ -28,7 +29,7 @@ theorem parse_with_prefix (be : Backend) (ver : Nat) (hver : VerOK ver) (v : Nat
   have hrange : ¬ ¬ (0 ≤ (q : Int) ∧ (q : Int) ≤ (width ver : Int)) := by
     intro h; apply h; constructor <;> omega
   unfold parseIpNetwork
-  simp only [Bool.false_eq_true, if_false, splitSlash_app _ T hns, hT, addr_rt be ver hver v hv, hres, hrange,
+  simp only [Bool.false_eq_true, if_false, splitSlash_app _ T hns, secondSlash, parseStrCore, hT, addr_rt be ver hver v hv, hres, hrange,
     Int.toNat_natCast]
 
 /-- a bare address -/
@@ -38,7 +39,7 @@ theorem parse_bare (be : Backend) (ver : Nat) (hver : VerOK ver) (v : Nat) (hv :
   have hrange : ¬ ¬ (0 ≤ (width ver : Int) ∧ (width ver : Int) ≤ (width ver : Int)) := by
     intro h; apply h; constructor <;> omega
   unfold parseIpNetwork
-  simp only [Bool.false_eq_true, if_false, splitSlash_none _ hns, addr_rt be ver hver v hv, resolve_none, hrange,
+  simp only [Bool.false_eq_true, if_false, splitSlash_none _ hns, secondSlash, parseStrCore, addr_rt be ver hver v hv, resolve_none, hrange,
     Int.toNat_natCast]
 
 /-- from `parse_ip_network` to `IPNetwork(...)`: explicit version, or detection (IPv4 first) -/
@@ -236,10 +237,10 @@ theorem parse6_v4text (be : Backend) (v : Nat) (hv : v < 2 ^ 32) (rest : Option 
   unfold parseIpNetwork
   cases rest with
   | none =>
-    simp only [List.append_nil, Bool.false_eq_true, if_false, splitSlash_none _ hns, hx, h64]
+    simp only [List.append_nil, Bool.false_eq_true, if_false, splitSlash_none _ hns, secondSlash, parseStrCore, hx, h64]
   | some t =>
     have ht := hrest t rfl
-    simp only [Bool.false_eq_true, if_false, splitSlash_app _ t hns, ht, hx, h64]
+    simp only [Bool.false_eq_true, if_false, splitSlash_app _ t hns, secondSlash, parseStrCore, ht, hx, h64]
 
 /-- **Rejections.**  (1) a decimal prefix beyond the width, (2) a tuple whose value or prefix is
     out of range (negative or too large), (3) a mask text that is neither a netmask nor a
@@ -272,7 +273,7 @@ theorem rejects (be : Backend) (ver : Nat) (hver : VerOK ver) (v : Nat) (hv : v 
     apply lift _ (C03L.slash_not_in_dec q)
     have hrange : ¬ (0 ≤ (q : Int) ∧ (q : Int) ≤ (width ver : Int)) := by omega
     unfold parseIpNetwork
-    simp only [Bool.false_eq_true, if_false, splitSlash_app _ _ hns, C03L.slash_not_in_dec q, addr_rt be ver hver v hv,
+    simp only [Bool.false_eq_true, if_false, splitSlash_app _ _ hns, secondSlash, parseStrCore, C03L.slash_not_in_dec q, addr_rt be ver hver v hv,
       resolve_dec, hrange, not_false_eq_true, if_true]
   · intro value prefixlen h
     unfold ipNetwork
@@ -290,7 +291,7 @@ theorem rejects (be : Backend) (ver : Nat) (hver : VerOK ver) (v : Nat) (hv : v 
     have hres : resolvePrefix be ver (some (intToStr be ver m)) = .error .addrFormat := by
       rw [resolve_mask be ver hver m hm, hn, hh]; rfl
     unfold parseIpNetwork
-    simp only [Bool.false_eq_true, if_false, splitSlash_app _ _ hns, hT, addr_rt be ver hver v hv, hres]
+    simp only [Bool.false_eq_true, if_false, splitSlash_app _ _ hns, secondSlash, parseStrCore, hT, addr_rt be ver hver v hv, hres]
 
 example : isNetmask 32 0xff00ff00 = false ∧ isHostmask 0xff00ff00 = false ∧ 0xff00ff00 < 2 ^ width 4 := by decide
 
@@ -396,7 +397,7 @@ theorem net_of_partial (be : Backend) (txt : List Char) (val p : Nat)
   unfold ipNetwork
   simp only [if_pos h44]
   unfold parseIpNetwork
-  simp only [Bool.false_eq_true, if_false, splitSlash_app _ _ h1, C03L.slash_not_in_dec p, hip, if_true, h3, hrt,
+  simp only [Bool.false_eq_true, if_false, splitSlash_app _ _ h1, secondSlash, parseStrCore, C03L.slash_not_in_dec p, hip, if_true, h3, hrt,
     resolve_dec, hrange, Int.toNat_natCast, applyNohost_ok 4 (Or.inl rfl) 0 val p (by rw [hw]; exact hp), hfl]
   simp
 
@@ -621,5 +622,158 @@ theorem abbrev_multi (be : Backend) (a b c : Nat) (ha : a < 256) (hb : b < 256) 
     rfl
 
 example : classOf 192 = 24 ∧ (192 : Nat) * 16777216 + 168 * 65536 = 0xC0A80000 := by decide
+
+theorem resolvePrefix_err (be : Backend) (ver : Nat) (hver : VerOK ver) (val2 : Option (List Char)) (e : Err)
+    (hno : ∀ t, val2 = some t → t.contains '/' = false) (h : resolvePrefix be ver val2 = .error e) : e = .addrFormat := by
+  have hver3 : some ver = none ∨ some ver = some 4 ∨ some ver = some 6 := by
+    rcases hver with r | r <;> subst r <;> simp
+  unfold resolvePrefix at h
+  cases val2 with
+  | none => cases h
+  | some t =>
+    have ht := hno t rfl
+    simp only at h
+    cases hpi : Py.pyInt 10 t with
+    | some i => simp [hpi] at h
+    | none =>
+      simp only [hpi] at h
+      cases hip : ipAddress be t (some ver) INET_PTON with
+      | error e' =>
+        simp only [hip] at h
+        cases h
+        exact C01.reject_is_addrformat be t (some ver) INET_PTON _ hver3 ht hip
+      | ok mask =>
+        simp only [hip] at h
+        obtain ⟨_, hlt⟩ := ipAddress_ok_lt be t ver hver mask hip
+        by_cases hn : isNetmask (width ver) mask.val = true
+        · obtain ⟨p, _, hl⟩ := lookup_netmask ver hver mask.val hlt hn
+          simp [hn, hl] at h
+        · by_cases hh : isHostmask mask.val = true
+          · obtain ⟨p, _, hl⟩ := lookup_hostmask ver hver mask.val hlt hh
+            simp [hn, hh, hl] at h
+          · simp [hn, hh] at h
+            exact h.symm
+
+/-- every failure of the string branch after the split is AddrFormatError -/
+theorem core_err (be : Backend) (ver : Nat) (hver : VerOK ver) (val1 : List Char) (val2 : Option (List Char))
+    (fl : Nat) (e : Err) (hfst : val1.contains '/' = false) (hno : ∀ t, val2 = some t → t.contains '/' = false)
+    (h : parseStrCore be ver val1 val2 fl = .error e) : e = .addrFormat := by
+  have hver3 : some ver = none ∨ some ver = some 4 ∨ some ver = some 6 := by
+    rcases hver with r | r <;> subst r <;> simp
+  unfold parseStrCore at h
+  simp only at h
+  cases h1 : ipAddress be val1 (some ver) INET_PTON with
+  | ok a =>
+    simp only [h1] at h
+    cases hr : resolvePrefix be ver val2 with
+    | error e' =>
+      simp only [hr] at h; cases h
+      exact resolvePrefix_err be ver hver val2 _ hno hr
+    | ok q =>
+      simp only [hr] at h
+      split at h
+      · cases h; rfl
+      · rename_i hq
+        have hq' : 0 ≤ q ∧ q ≤ (width ver : Int) := Classical.not_not.mp hq
+        have : q.toNat ≤ width ver := by omega
+        rw [applyNohost_ok ver hver fl a.val q.toNat this] at h
+        cases h
+  | error e1 =>
+    have e1f := C01.reject_is_addrformat be val1 (some ver) INET_PTON e1 hver3 hfst h1
+    subst e1f
+    simp only [h1] at h
+    by_cases hv4 : ver = 4
+    · simp only [hv4, if_true] at h
+      cases hx : expandPartialAddress val1 with
+      | error ex =>
+        simp only [hx] at h
+        cases h
+        unfold expandPartialAddress at hx
+        split at hx
+        · cases hx; rfl
+        · simp only at hx
+          split at hx
+          · cases hx; rfl
+          · split at hx
+            · cases hx
+            · cases hx; rfl
+      | ok expanded =>
+        simp only [hx] at h
+        cases h2 : ipAddress be expanded (some 4) INET_PTON with
+        | error e2 =>
+          simp only [h2] at h; cases h
+          exact C01.reject_is_addrformat be expanded (some 4) INET_PTON _ (Or.inr (Or.inl rfl)) (expand_noslash _ _ hx) h2
+        | ok a =>
+          simp only [h2] at h
+          subst hv4
+          cases hr : resolvePrefix be 4 val2 with
+          | error e' =>
+            simp only [hr] at h; cases h
+            exact resolvePrefix_err be 4 hver val2 _ hno hr
+          | ok q =>
+            simp only [hr] at h
+            split at h
+            · cases h; rfl
+            · rename_i hq
+              have hq' : 0 ≤ q ∧ q ≤ (width 4 : Int) := Classical.not_not.mp hq
+              have : q.toNat ≤ width 4 := by omega
+              rw [applyNohost_ok 4 hver fl a.val q.toNat this] at h
+              cases h
+    · simp only [hv4, if_false] at h
+      cases h; rfl
+
+/-- every failure of `parse_ip_network` on a string is AddrFormatError -/
+theorem parse_err (be : Backend) (ver : Nat) (hver : VerOK ver) (s : List Char) (i : Bool) (fl : Nat) (e : Err)
+    (h : parseIpNetwork be ver (.str s) i fl = .error e) : e = .addrFormat := by
+  unfold parseIpNetwork at h
+  simp only at h
+  generalize (if i = true then cidrAbbrevToVerbose s else s) = addr at h
+  have hfst := splitSlash_fst addr
+  generalize splitSlash addr = sp at h hfst
+  obtain ⟨val1, val2⟩ := sp
+  simp only at h hfst
+  by_cases hss : secondSlash val2 = true
+  · rw [if_pos hss] at h; cases h; rfl
+  · rw [if_neg hss] at h
+    have hno : ∀ t, val2 = some t → t.contains '/' = false := by
+      intro t ht; subst ht
+      cases hc : t.contains '/' with
+      | false => rfl
+      | true => exact absurd (show secondSlash (some t) = true from hc) hss
+    exact core_err be ver hver val1 val2 fl e hfst hno h
+
+/-- **A malformed network string raises AddrFormatError**: whatever string is given (with a valid
+    or absent version argument, any flags, implicit_prefix or not), `IPNetwork(s)` either builds a
+    network or raises AddrFormatError — never another exception class. -/
+theorem error_is_addrformat (be : Backend) (s : List Char) (i : Bool) (pver : Option Nat) (fl : Nat) (e : Err)
+    (hpver : pver = none ∨ pver = some 4 ∨ pver = some 6)
+    (h : ipNetwork be (.str s) i pver fl = .error e) : e = .addrFormat := by
+  unfold ipNetwork at h
+  simp only at h
+  rcases hpver with r | r | r <;> subst r <;> simp only at h
+  · cases h4 : parseIpNetwork be 4 (.str s) i fl with
+    | ok r => obtain ⟨v, p⟩ := r; simp [h4] at h
+    | error e4 =>
+      have := parse_err be 4 (Or.inl rfl) s i fl e4 h4
+      subst this
+      simp only [h4] at h
+      cases h6 : parseIpNetwork be 6 (.str s) i fl with
+      | ok r => obtain ⟨v, p⟩ := r; simp [h6] at h
+      | error e6 =>
+        simp only [h6] at h; cases h
+        exact parse_err be 6 (Or.inr rfl) s i fl _ h6
+  · have h44 : True ∨ (4 : Nat) = 6 := Or.inl trivial
+    rw [if_pos h44] at h
+    cases h4 : parseIpNetwork be 4 (.str s) i fl with
+    | ok r => obtain ⟨v, p⟩ := r; simp [h4] at h
+    | error e4 => simp only [h4] at h; cases h; exact parse_err be 4 (Or.inl rfl) s i fl _ h4
+  · have h66 : (6 : Nat) = 4 ∨ True := Or.inr trivial
+    rw [if_pos h66] at h
+    cases h6 : parseIpNetwork be 6 (.str s) i fl with
+    | ok r => obtain ⟨v, p⟩ := r; simp [h6] at h
+    | error e6 => simp only [h6] at h; cases h; exact parse_err be 6 (Or.inr rfl) s i fl _ h6
+
+example : (match ipNetwork .platform (.str "1.2.3.4//".toList) false none 0 with | .error .addrFormat => true | _ => false) = true := by
+  decide
 
 end NV.C03
